@@ -33,6 +33,7 @@ func main() {
 	timed("csv", csvSection)
 	timed("obj", objSection)
 	timed("3mf", threeMFSection)
+	timed("ply.history", plyHistory)
 	r.Note("group_wall_s", walls)
 
 	// clauses named in the property statement
@@ -44,6 +45,8 @@ func main() {
 	r.Require("ply.mesh.roundtrips_ok", 1000)
 	r.Require("ply.mesh.text_ok", 1000)
 	r.Require("ply.mesh_harness.reads_ok", 500)
+	r.Require("ply.history.mesh_roundtrips_ok", 500)
+	r.Require("ply.history.custom_files", 300)
 	r.Require("ply.generic.files", 2000)
 	r.Require("ply.generic.format.ascii", 500)
 	r.Require("ply.generic.format.binary_little_endian", 500)
